@@ -1,7 +1,7 @@
 (* PV.C16.Examples — non-vacuity: concrete, non-trivial instances of every hypothesis / guard of the
    theorems in Properties.v. *)
 From Coq Require Import List Bool NArith Arith.
-From PV Require Import C16.Model C16.Proofs C16.ProofsCodec C16.ProofsStore C16.ProofsText C16.Concurrent C16.Refuted.
+From PV Require Import C16.Model C16.Proofs C16.ProofsCodec C16.ProofsStore C16.ProofsText C16.Concurrent C16.Serial C16.Refuted.
 Import ListNotations.
 
 Definition w2 : list witem := [WInit; WStore mP; WStore mI; WLog cx dt inf [104;105]%N].
@@ -127,3 +127,18 @@ Example writer_machine_example :
   /\ (let s := crun cP cD [true; false; true; false; true; false; true; false; true; false; false; true] f_init in
       fs_eqb (c_fs s) (run [WDbStore cD; WDbStore cP] f_init) && negb (fs_eqb (c_fs s) (run [WDbStore cP; WDbStore cD] f_init))) = true.
 Proof. vm_compute. auto. Qed.
+
+(* the hypotheses of two_writers_serializable hold of a database that already holds a model (two further
+   models, one sharing its dataset), those of annotation_writers_serializable of a fresh context; and the two
+   serial orders are different file systems, so the disjunction in the theorems says something *)
+Example serial_hypotheses_example :
+  J f_one
+  /\ (is_dir f_one [CDb] = true /\ exists_ f_one (pending (m_key cI)) = false /\ exists_ f_one (pending (m_key cD)) = false
+      /\ m_key cI <> m_key cD /\ is_dir f_init [] = true
+      /\ lookup (run [WAnnot [97] [120]; WAnnot [98] [121]] f_init) annot_path
+         <> lookup (run [WAnnot [98] [121]; WAnnot [97] [120]] f_init) annot_path
+      /\ lookup (run [WDbStore cP; WDbStore cD] f_init) (model_file 3) <> lookup (run [WDbStore cD; WDbStore cP] f_init) (model_file 3))%N.
+Proof.
+  split; [unfold f_one; apply consistent_closed_lemma; apply J_empty|].
+  vm_compute. repeat split; try discriminate.
+Qed.
